@@ -52,14 +52,22 @@ def setKeys (f : Nat → Bool) (ks : List Nat) (v : Bool) : Nat → Bool := fun 
 def statIdx (a : Asm) : List Nat :=
   (a.blocks.zipIdx.filter (fun p => p.1.stat)).map (·.2)
 
+/-- position-wise exchange of the stationary blocks of two block lists (`assembly.remove` + `assembly.insert` at the
+same index, pair by pair): where the first list has a stationary block the two blocks of that axial position trade
+places. Under the guard of `transfer` (same stationary positions) that is also where the second list has one. -/
+def xchg : List Blk → List Blk → List Blk × List Blk
+  | x :: xs, y :: ys =>
+    let r := xchg xs ys
+    if x.stat then (y :: r.1, x :: r.2) else (x :: r.1, y :: r.2)
+  | xs, [] => (xs, [])
+  | [], ys => ([], ys)
+
 /-- `_transferStationaryBlocks`: `none` = ValueError (different number / positions), nothing mutated.
-Otherwise the stationary blocks are exchanged position by position (remove + insert at the same index). -/
+Otherwise the stationary blocks are exchanged position by position. -/
 def transfer (a1 a2 : Asm) : Option (Asm × Asm) :=
   if statIdx a1 ≠ statIdx a2 then none
   else
-    let b1 := a1.blocks.zipIdx.map (fun p => if p.1.stat then (a2.blocks.getD p.2 p.1) else p.1)
-    let b2 := a2.blocks.zipIdx.map (fun p => if p.1.stat then (a1.blocks.getD p.2 p.1) else p.1)
-    some ({ a1 with blocks := b1 }, { a2 with blocks := b2 })
+    some ({ a1 with blocks := (xchg a1.blocks a2.blocks).1 }, { a2 with blocks := (xchg a1.blocks a2.blocks).2 })
 
 def cellOf (s : St) (id : Nat) : Option Cell := (s.core.find? (fun p => p.1.id = id)).map (·.2)
 def asmOf (s : St) (id : Nat) : Option Asm := (s.core.find? (fun p => p.1.id = id)).map (·.1)
@@ -177,5 +185,70 @@ def step (s : St) : Op → St
   | .add a c => (coreAdd s a c).st
 
 def run (s : St) (ops : List Op) : St := ops.foldl step s
+
+
+/-! ### names (assembly name from `assemNum`, block names from assembly number + axial index)
+
+A small name-level layer beside the identity-level model above: `Assembly.renumber` /
+`renameBlocksAccordingToAssemblyNum` / `makeUnique` (a random NEGATIVE placeholder number), the name-keyed
+dictionaries `assembliesByName` / `blocksByName`, `Core.add`'s registration (after renumbering a placeholder),
+`_removeListFromAuxiliaries` (delete by CURRENT name, `KeyError` for a block swallowed). -/
+
+structure NBlk where
+  bid : Nat
+  /-- `b.name` = `B<assemNum>-<axial index>` as (number, index) -/
+  name : Int × Nat
+  stat : Bool
+deriving DecidableEq, Repr
+
+structure NAsm where
+  id : Nat
+  /-- `a.p.assemNum`; the name is `A<num>` -/
+  num : Int
+  blocks : List NBlk
+deriving DecidableEq, Repr
+
+structure NSt where
+  /-- `core.assembliesByName`: name ↦ object -/
+  byName : Int → Option Nat
+  /-- `core.blocksByName`: name ↦ object -/
+  bbn : Int × Nat → Option Nat
+  /-- `r.p.maxAssemNum` -/
+  next : Int
+
+/-- `Assembly.renumber(n)`: new name, every block renamed by its axial index -/
+def renumber (a : NAsm) (n : Int) : NAsm :=
+  { a with num := n, blocks := a.blocks.zipIdx.map (fun p => { p.1 with name := (n, p.2) }) }
+
+/-- `for b in a: blocksByName[b.getName()] = b` (later writes win) -/
+def regBlocks (f : Int × Nat → Option Nat) (bs : List NBlk) : Int × Nat → Option Nat :=
+  fun x => match bs.reverse.find? (fun b => b.name = x) with
+    | some b => some b.bid
+    | none => f x
+
+/-- `Core.add` at name level: renumber a placeholder, then register the assembly and its blocks -/
+def nCoreAdd (s : NSt) (a : NAsm) : NSt × NAsm :=
+  let a1 := if a.num < 0 then renumber a s.next else a
+  let nx := if a.num < 0 then s.next + 1 else s.next
+  ({ byName := fun n => if n = a1.num then some a1.id else s.byName n,
+     bbn := regBlocks s.bbn a1.blocks, next := nx }, a1)
+
+/-- `_removeListFromAuxiliaries`: delete the assembly's name and the CURRENT names of the blocks it holds -/
+def nPurge (s : NSt) (a : NAsm) : NSt :=
+  { s with byName := fun n => if n = a.num then none else s.byName n,
+           bbn := fun x => if a.blocks.any (fun b => b.name = x) then none else s.bbn x }
+
+/-- `_transferStationaryBlocks` at name level: block objects (with their names) change assembly -/
+def nTransfer (a1 a2 : NAsm) : NAsm × NAsm :=
+  ({ a1 with blocks := a1.blocks.zipIdx.map (fun p => if p.1.stat then a2.blocks.getD p.2 p.1 else p.1) },
+   { a2 with blocks := a2.blocks.zipIdx.map (fun p => if p.1.stat then a1.blocks.getD p.2 p.1 else p.1) })
+
+/-- `dischargeSwap(fresh incoming, outgoing)` at name level: exchange, outgoing leaves (pooled: tables untouched;
+purged: names deleted), incoming added. Returns the tables, the incoming and the outgoing assembly afterwards. -/
+def nDischarge (s : NSt) (incoming out : NAsm) (track : Bool) : NSt × NAsm × NAsm :=
+  let (inc', out') := nTransfer incoming out
+  let s1 := if track then s else nPurge s out'
+  let (s2, inc'') := nCoreAdd s1 inc'
+  (s2, inc'', out')
 
 end ArmiVerif.Shuffle
